@@ -151,3 +151,28 @@ def gen_ctor(g, gn, asserts=False):
     g.note("ctor:%s:%d" % (gn, cid))
     return dict(group=gn, op="Ctor", mask=mask, iarg=cid, flt=0, args=args)
 corr.CUSTOM_GEN["Ctor"] = gen_ctor
+
+# ---------------------------------------------------------------- views (C10)
+corr.OPSIG["View"] = ("", 0)
+VIEW_READS = [0, 1, 2, 3, 4, 5, 6, 8, 9, 20]
+VIEW_WRITES = [10, 11, 12, 13, 14, 15, 16, 17, 18, 19, 21, 22]
+VIEW_TANGENT = [30, 31, 32, 33, 34, 35, 36]
+def gen_view(g, gn, ids=None):
+    """a buffer with guard zones of distinct sentinel values around two element slots; the view is deliberately not aligned"""
+    gd = corr.group(gn)
+    vid = g.r.choice(ids or (VIEW_READS + VIEW_WRITES + VIEW_TANGENT))
+    if vid == 14 and gn.startswith("R"): vid = 11
+    tangent = vid >= 30
+    n = gd.dof if tangent else gd.rep
+    g1 = g.r.randint(1, 5); g2 = g.r.randint(1, 4); g3 = g.r.randint(1, 5)
+    off = g1; off2 = g1 + n + g2
+    sent = lambda i: Fr(100003 + 17 * i, 7)
+    A = small_tangent(g, gd) if tangent else small_elem(g, gd, True)
+    B = small_tangent(g, gd) if tangent else small_elem(g, gd, True)
+    buf = [sent(i) for i in range(g1)] + A + [sent(50 + i) for i in range(g2)] + B + [sent(100 + i) for i in range(g3)]
+    Y = small_elem(g, gd, True); t = small_tangent(g, gd)
+    k = g.r.randrange(gd.rep); val = Fr(g.r.randint(-9, 9), g.r.choice([1, 2, 3]))
+    cst = "1" if (vid in VIEW_READS or vid in (30, 35)) and g.r.random() < 0.5 else "0"
+    g.note("view_op:%d" % vid); g.note("view_kind:" + ("const" if cst == "1" else "mutable"))
+    return dict(group=gn, op="View", mask=cst, iarg=off + 1000 * off2 + 10 ** 6 * k + 10 ** 9 * vid, flt=0, args=[buf, [Fr(off), Fr(off2)], Y, t, [Fr(k), val]])
+corr.CUSTOM_GEN["View"] = gen_view
